@@ -638,6 +638,8 @@ func (t *Tree) Compile(file string, args []string, out io.Writer) (err error) {
 	t.RulesCount++
 
 	t.Generator = strings.Join(slices.Concat([]string{"peg"}, args[1:]), " ")
+	/* the command line is printed into a line comment: keep it on one line */
+	t.Generator = strings.NewReplacer("\n", `\n`, "\r", `\r`).Replace(t.Generator)
 
 	counts := [TypeLast]uint{}
 	countsByRule := make([]*[TypeLast]uint, t.RulesCount)
